@@ -293,7 +293,7 @@ def build(tier, seed):
         obs.append({"id": "C11/hist/%04d" % i, "module": "c11_hist_%04d" % i, "source": src, "fn": "hist", "required_tags": ["history"],
                     "bound": "history %s from the empty buffer; insert positions symbolic in [0,5], contents symbolic" % (list(h),),
                     "assertion": "each step raises <=> occupied; final tobytes == sparse-array reference", "decl_text": str(list(h)),
-                    "timeout": 90})
+                    "timeout": 90 if tier == "quick" else 400})
     return {"obligations": obs,
             "bounds": {"inductive_step": "<=%d prior fragments, chunk lengths %s, positions unbounded" % (kmax, lens_choices),
                        "histories": "all (quick: every second) sequences of %d ops over %s, positions in [0,5]" % (hl, kinds)},
